@@ -32,6 +32,33 @@ def _is_store(e, base):
     return P.stores_to(e, lambda t: t.startswith(base + "["))
 
 
+def loc_bound(ctx, rid):
+    """SoCLocHandler: a user-fixed location is accepted only inside the range the allocator hands out (shared with C14: a CSR
+    bank pinned at n_locs is published at an address past the window the CSR bridge decodes)."""
+    m = ctx.mod(SOC)
+    fn = m.method("SoCLocHandler", "add")
+    paths = P.feasible_paths(fn)
+    # A3 bound form
+    his = []
+    for n in walk_no_nested(fn):
+        if isinstance(n, ast.Compare) and "self.n_locs" in norm(n) and len(n.ops) == 1:
+            his.append(n)
+    ctx.ob(rid, SOC, "SoCLocHandler.add", "upper bound test:present", len(his) == 1,
+           f"expected one comparison against self.n_locs, found {[norm(h) for h in his]}", fn)
+    for h in his:
+        ok = _excludes_ge(h, "n", "self.n_locs")
+        ctx.ob(rid, SOC, "SoCLocHandler.add", "upper test rejects exactly n >= n_locs", ok,
+               "" if ok else f"`{norm(h)}` does not reject exactly n >= self.n_locs: location n_locs (one past the "
+                             f"allocator's range) is accepted or a legal one refused", h)
+        badp = [p for p in paths if any(e[0] == "test" and e[1] is h and e[2] for e in p.ev) and p.end != "raise"]
+        ctx.ob(rid, SOC, "SoCLocHandler.add", "out-of-range raises", not badp, "" if not badp else "bound test true does not raise", h)
+    fa = m.method("SoCLocHandler", "alloc")
+    fors = [n for n in ast.walk(fa) if isinstance(n, ast.For)]
+    ok = len(fors) == 1 and norm(fors[0].iter) == "range(self.n_locs)"
+    ctx.ob(rid, SOC, "SoCLocHandler.alloc", "allocator ranges over range(n_locs)", ok,
+           "" if ok else f"allocator iterates {norm(fors[0].iter) if fors else '?'}", fa)
+
+
 def run(ctx):
     m = ctx.mod(SOC)
     ctx.rule("A1", "commit => validated: on every path a store into self.regions / self.io_regions / self.locs is covered "
@@ -260,25 +287,8 @@ def run(ctx):
         # (the first one is also reached via `use_loc_if_exists and name in ...` which is a different test text)
         ctx.ob("A1", SOC, "SoCLocHandler.add", f"`{tst}` raises", not badp,
                "" if not badp else f"test `{tst}` true does not raise", fn)
-    # A3 bound form
-    his = []
-    for n in walk_no_nested(fn):
-        if isinstance(n, ast.Compare) and "self.n_locs" in norm(n) and len(n.ops) == 1:
-            his.append(n)
-    ctx.ob("A3", SOC, "SoCLocHandler.add", "upper bound test:present", len(his) == 1,
-           f"expected one comparison against self.n_locs, found {[norm(h) for h in his]}", fn)
-    for h in his:
-        ok = _excludes_ge(h, "n", "self.n_locs")
-        ctx.ob("A3", SOC, "SoCLocHandler.add", "upper test rejects exactly n >= n_locs", ok,
-               "" if ok else f"`{norm(h)}` does not reject exactly n >= self.n_locs: location n_locs (one past the "
-                             f"allocator's range) is accepted or a legal one refused", h)
-        badp = [p for p in paths if any(e[0] == "test" and e[1] is h and e[2] for e in p.ev) and p.end != "raise"]
-        ctx.ob("A3", SOC, "SoCLocHandler.add", "out-of-range raises", not badp, "" if not badp else "bound test true does not raise", h)
+    loc_bound(ctx, "A3")
     fa = m.method("SoCLocHandler", "alloc")
-    fors = [n for n in ast.walk(fa) if isinstance(n, ast.For)]
-    ok = len(fors) == 1 and norm(fors[0].iter) == "range(self.n_locs)"
-    ctx.ob("A3", SOC, "SoCLocHandler.alloc", "allocator ranges over range(n_locs)", ok,
-           "" if ok else f"allocator iterates {norm(fors[0].iter) if fors else '?'}", fa)
     pa = P.feasible_paths(fa)
     bad = None
     for p in pa:
